@@ -482,6 +482,34 @@ def _prints_once_each_path(body: List[ast.stmt]) -> bool:
     return c == (1, 1)
 
 
+def _loader_calls(prog, fi: FuncInfo, root: ast.AST):
+    """Calls of the ruamel loader reachable in ``root``: `parser.load(...)`
+    / `parser.load_all(...)` on the function's parser parameter, and calls
+    of a Parsers helper that hands *its* first parameter's load / load_all
+    on (a wrapper is the loader call it makes).  -> [(call, method)]"""
+    pname = fi.params()[0]
+    out = []
+    for n in walk_local(root):
+        if not (isinstance(n, ast.Call) and isinstance(n.func, ast.Attribute)):
+            continue
+        if n.func.attr in ("load", "load_all") and \
+                src(n.func.value) == pname:
+            out.append((n, n.func.attr))
+            continue
+        if n.args and src(n.args[0]) == pname and \
+                prog.has_func("Parsers." + n.func.attr) and \
+                n.func.attr != fi.node.name:
+            w = prog.func("Parsers." + n.func.attr)
+            inner = [c for c in walk_local(w.node)
+                     if isinstance(c, ast.Call) and
+                     isinstance(c.func, ast.Attribute) and
+                     c.func.attr in ("load", "load_all") and
+                     src(c.func.value) == w.params()[0]]
+            if len(inner) == 1:
+                out.append((n, inner[0].func.attr))  # type: ignore
+    return out
+
+
 def d3_loaders(chk: Check) -> None:
     prog = chk.prog
     chk.rule("C16-D3", "both loaders call the same parser method for stdin, "
@@ -496,14 +524,12 @@ def d3_loaders(chk: Check) -> None:
             chk.fail("C16-D3", fi, fi.node, "try", "expected a single try")
             continue
         tr = tries[0]
-        calls = [n for n in walk_local(tr) if isinstance(n, ast.Call) and
-                 isinstance(n.func, ast.Attribute) and
-                 n.func.attr in ("load", "load_all") and
-                 src(n.func.value) == fi.params()[0]]
+        lcalls = _loader_calls(prog, fi, tr)
+        calls = [c for c, _ in lcalls]
         inside = [c for c in calls
                   if not any(isinstance(a, ast.ExceptHandler)
                              for a in ancestors(c))]
-        methods = {c.func.attr for c in inside}  # type: ignore
+        methods = {m for c, m in lcalls if c in inside}
         stdin = [c for c in inside if "stdin" in src(c)]
         if methods == {meth} and len(inside) == 3 and len(stdin) == 1:
             chk.ok("C16-D3", fi, tr, "parser.{}() x3".format(meth),
@@ -515,9 +541,8 @@ def d3_loaders(chk: Check) -> None:
                 "file and stdin delivery do not use the same loader call "
                 "(found {} calls: {})".format(
                     len(inside), sorted(src(c)[:40] for c in inside)))
-        outside = [n for n in walk_local(fi.node) if isinstance(n, ast.Call)
-                   and isinstance(n.func, ast.Attribute) and
-                   n.func.attr in ("load", "load_all") and n not in calls]
+        outside = [c for c, _ in _loader_calls(prog, fi, fi.node)
+                   if c not in calls]
         if outside:
             chk.fail("C16-D3", fi, outside[0], src(outside[0])[:60],
                      "a loader call outside the error-trapping try")
@@ -539,8 +564,8 @@ def d3b_same_documents_per_arm(chk: Check) -> None:
              "get_yaml_multidoc_data agree on the fallback document for an "
              "input that yields no document", floor=1)
     fi = prog.func("Parsers.get_yaml_multidoc_data")
-    loads = [c for c in walk_local(fi.node) if isinstance(c, ast.Call) and
-             isinstance(c.func, ast.Attribute) and c.func.attr == "load_all"]
+    loads = [c for c, m in _loader_calls(prog, fi, fi.node)
+             if m == "load_all"]
     arms = []
     for c in loads:
         loop = next((a for a in ancestors(c) if isinstance(a, ast.For)), None)
@@ -564,7 +589,7 @@ def d3b_same_documents_per_arm(chk: Check) -> None:
                    if isinstance(a, ast.With) for i in a.items
                    if i.optional_vars is not None}
         kind = "STDIN" if "stdin" in src(c) else (
-            "file" if c.args and src(c.args[0]) in handles else "literal")
+            "file" if c.args and src(c.args[-1]) in handles else "literal")
         arms.append((kind, fallback, c))
     if len(arms) != 3:
         raise AnalysisError("arms of get_yaml_multidoc_data: {}".format(
@@ -1051,6 +1076,201 @@ def d15_alias_option_table(chk: Check) -> None:
                          got, want[m]))
 
 
+def d18_filters_restored_before_handing_out(chk: Check) -> None:
+    """`warnings.catch_warnings()` changes process-wide state until its
+    block is left.  A generator that yields from inside such a block (with
+    the filter set to "error") suspends *inside* it: everything the caller
+    does with the yielded document runs with warnings turned into
+    exceptions -- a search with the regular expression `[[]a` makes
+    re.compile() issue a FutureWarning, which then ends yaml-paths in a
+    traceback although the same query works through the single-document
+    loader."""
+    prog = chk.prog
+    chk.rule("C16-D18", "no `yield` inside a `with warnings.catch_warnings()` "
+             "block of the loaders (the filter is restored before a document "
+             "is handed to the caller)", floor=2)
+    n = 0
+    for fi in prog.funcs_in("yamlpath/common/parsers.py"):
+        for w in walk_local(fi.node):
+            if not (isinstance(w, ast.With) and any(
+                    isinstance(i.context_expr, ast.Call) and
+                    src(i.context_expr.func).endswith("catch_warnings")
+                    for i in w.items)):
+                continue
+            n += 1
+            ys = [y for st in w.body for y in ast.walk(st)
+                  if isinstance(y, (ast.Yield, ast.YieldFrom))]
+            text = "{}: with warnings.catch_warnings()".format(fi.short)
+            if ys:
+                chk.fail("C16-D18", fi, ys[0], text,
+                         "the generator yields while the tightened warnings "
+                         "filter is in force: the caller's own code (a "
+                         "search, a merge, printing) runs with every warning "
+                         "raised as an exception until the next document is "
+                         "requested")
+            else:
+                chk.ok("C16-D18", fi, w, text, "nothing is yielded inside "
+                       "the block")
+    if n < 2:
+        raise AnalysisError("catch_warnings blocks in the loaders: {}".format(n))
+
+
+def _option_table(prog, modname: str):
+    """add_argument calls of <modname>.processcli -> list of dicts."""
+    fi = prog.func(modname + ".processcli")
+    out = []
+    for c in walk_local(fi.node):
+        if not (isinstance(c, ast.Call) and
+                isinstance(c.func, ast.Attribute) and
+                c.func.attr == "add_argument"):
+            continue
+        flags = [a.value for a in c.args if isinstance(a, ast.Constant)
+                 and isinstance(a.value, str)]
+        kw = {k.arg: k.value for k in c.keywords if k.arg}
+        if "dest" in kw and isinstance(kw["dest"], ast.Constant):
+            dest = kw["dest"].value
+        else:
+            longs = [f for f in flags if f.startswith("--")]
+            base = longs[0] if longs else (flags[0] if flags else "")
+            dest = base.lstrip("-").replace("-", "_")
+        out.append({"call": c, "flags": flags, "dest": dest, "kw": kw})
+    return fi, out
+
+
+def d19_option_tables(chk: Check) -> None:
+    """Three things about the argparse tables that no passing test looks at.
+    (a) A `type=` that rewrites the text (`str.lower`) belongs to options
+    with a closed set of `choices=` only: a YAML Path, a file name or a key
+    name is case-sensitive.  (b) The configuration classes read the parsed
+    options by attribute name, guarded by hasattr(): the name must be the
+    `dest` argparse derives -- from the *first* long spelling -- or the
+    option is silently ignored.  (c) They take an option as "given" when its
+    value is truthy, to let the configuration file's [defaults] apply
+    otherwise: such an option has no default of its own."""
+    prog = chk.prog
+    chk.rule("C16-D19", "a text-rewriting type= (str.lower ...) only on "
+             "options with choices=", floor=10)
+    chk.rule("C16-D20", "every option attribute the configuration classes "
+             "read is the dest of an option of their tool", floor=8)
+    chk.rule("C16-D21", "options the configuration classes treat as 'given "
+             "when truthy' have no truthy default=", floor=5)
+    tools = [f.module.modname.split(".")[-1] for f in cli_functions(prog)
+             if f.node.name == "processcli"]
+    n19 = 0
+    tables = {}
+    for t in sorted(set(tools)):
+        fi, opts = _option_table(prog, t)
+        tables[t] = (fi, opts)
+        for o in opts:
+            ty = o["kw"].get("type")
+            if ty is None:
+                continue
+            rewrites = isinstance(ty, ast.Attribute) and \
+                src(ty.value) == "str" and ty.attr in (
+                    "lower", "upper", "casefold", "title", "capitalize",
+                    "strip", "lstrip", "rstrip", "swapcase")
+            n19 += 1
+            text = "{}: {} type={}".format(t, "/".join(o["flags"]), src(ty))
+            if rewrites and "choices" not in o["kw"]:
+                chk.fail("C16-D19", fi, o["call"], text,
+                         "the value of this option is free text (a path, a "
+                         "name): `{}` changes what the user wrote, so "
+                         "`--mergeat=/Settings/Ports` addresses "
+                         "/settings/ports".format(src(ty)))
+            else:
+                chk.ok("C16-D19", fi, o["call"], text,
+                       "closed choices" if rewrites else "not a rewriting "
+                       "conversion")
+    for cls, tool in (("MergerConfig", "yaml_merge"),
+                      ("DifferConfig", "yaml_diff")):
+        fi, opts = tables[tool]
+        dests = {o["dest"]: o for o in opts}
+        ci = prog.class_by_name(cls)
+        reads = {}
+        truthy = set()
+        for m in ci.methods.values():
+            for c in walk_local(m.node):
+                if isinstance(c, ast.Call) and src(c.func) == "hasattr" and \
+                        len(c.args) == 2 and \
+                        src(c.args[0]) == "self.args" and \
+                        isinstance(c.args[1], ast.Constant):
+                    name = c.args[1].value
+                    reads.setdefault(name, (m, c))
+                    p_ = parent(c)
+                    if isinstance(p_, ast.BoolOp) and \
+                            isinstance(p_.op, ast.And) and any(
+                                src(v) == "self.args." + name
+                                for v in p_.values):
+                        truthy.add(name)
+        for name, (m, c) in sorted(reads.items()):
+            text = "{} reads args.{}".format(cls, name)
+            if name in dests:
+                chk.ok("C16-D20", m, c, text, "dest of {}".format(
+                    "/".join(dests[name]["flags"])))
+            else:
+                chk.fail("C16-D20", m, c, text,
+                         "no option of {} has the dest `{}` (argparse "
+                         "derives it from the first long spelling): "
+                         "hasattr() is False, the option is accepted on "
+                         "the command line and silently ignored".format(
+                             tool.replace("_", "-"), name))
+        for name in sorted(truthy):
+            if name not in dests:
+                continue
+            o = dests[name]
+            d = o["kw"].get("default")
+            text = "{}: default of {}".format(tool, "/".join(o["flags"]))
+            if d is None or (isinstance(d, ast.Constant) and not d.value):
+                chk.ok("C16-D21", fi, o["call"], text, "none: the "
+                       "configuration file's [defaults] can apply")
+            else:
+                chk.fail("C16-D21", fi, o["call"], text,
+                         "`default={}` makes the option look given on "
+                         "every run: {} never consults [defaults] of the "
+                         "--config file for it, so the tool merges with "
+                         "another policy than the library does with the "
+                         "same configuration".format(src(d), cls))
+    if n19 < 10:
+        raise AnalysisError("type= conversions found: {}".format(n19))
+
+
+def d22_format_by_final_extension(chk: Check) -> None:
+    """Whether a file is written as JSON is inferred from its *final*
+    extension (`Path(name).suffix`): `settings.json.yaml` is a YAML file.
+    Looking at every extension (`.suffixes`), or searching the name for
+    `.json`, rewrites such a file as JSON -- dates become strings, tags,
+    anchors and comments are lost -- with exit status 0.  yaml-set and the
+    merger agree on this today."""
+    prog = chk.prog
+    chk.rule("C16-D22", "the output format is inferred from Path(<name>)"
+             ".suffix (the last extension) in yaml-set and in the merger",
+             floor=2)
+    n = 0
+    for q in ("yaml_set.write_document_as_yaml", "Merger.prepare_for_dump"):
+        fi = prog.func(q)
+        uses = [a for a in walk_local(fi.node) if isinstance(a, ast.Attribute)
+                and a.attr in ("suffix", "suffixes", "name", "stem") and
+                isinstance(a.value, ast.Call) and
+                src(a.value.func) in ("Path", "PurePath")]
+        texty = [c for c in walk_local(fi.node) if isinstance(c, ast.Compare)
+                 and any(isinstance(x, ast.Constant) and x.value == ".json"
+                         for x in ast.walk(c))]
+        if not texty:
+            raise AnalysisError(q + ": extension test not found")
+        n += 1
+        text = "{}: extension test".format(fi.short)
+        if uses and all(u.attr == "suffix" for u in uses) and all(
+                isinstance(c.ops[0], (ast.Eq, ast.NotEq, ast.In, ast.NotIn))
+                for c in texty):
+            chk.ok("C16-D22", fi, uses[0], text, "Path(...).suffix")
+        else:
+            chk.fail("C16-D22", fi, (uses or texty)[0], text,
+                     "the test does not look at the final extension alone "
+                     "(`{}`): a YAML file with `.json` elsewhere in its "
+                     "name (`package.json.yml`) is rewritten as JSON"
+                     .format(src((uses or texty)[0])[:50]))
+
+
 def d17_loaded_means_a_document(chk: Check) -> None:
     """yaml-merge takes element [0] of its document lists (the prime
     left-hand document, the document whose type decides the output format).
@@ -1129,6 +1349,9 @@ def run(chk: Check) -> None:
     d11_value_as_supplied(chk)
     d15_alias_option_table(chk)
     d17_loaded_means_a_document(chk)
+    d18_filters_restored_before_handing_out(chk)
+    d19_option_tables(chk)
+    d22_format_by_final_extension(chk)
     from rules.shared import shared_state_rule
     shared_state_rule(chk, "C16-D12", sorted({f.module.relpath
                                           for f in funcs}), 40)
